@@ -399,6 +399,29 @@ impl OpSource for Gen {
                 return self.flat.pop_front();
             }
         }
+        // scenario: a handle of a LIVE arena is presented to a set of another live arena (must be refused by
+        // contains / try_fetch / fetch alike), then both arenas are collected and the handle is dropped
+        if v.in_cb.is_none() && self.prof.multi_arena && self.emitted < self.prof.len && v.arenas[0] && self.rng.chance(1, 40) {
+            let free_arena = (1..NARENAS as u8).find(|x| !v.arenas[*x as usize]);
+            let free_h: Vec<u8> = (0..NHANDLES as u8).filter(|h| v.handles[*h as usize].is_none()).collect();
+            if let (Some(b), true) = (free_arena, !free_h.is_empty()) {
+                let h1 = free_h[0];
+                let k = self.rng.pick(&[Kind::Node, Kind::Leaf, Kind::Struct]);
+                let seq = [
+                    Op::Begin(b, CbKind::New), Op::M(MOp::Alloc(0, Kind::Set, 0, 0)), Op::M(MOp::Alloc(1, k, 1, 0)),
+                    Op::M(MOp::Stash(h1, 0, 1)), Op::End,
+                    Op::Begin(0, CbKind::Mutate), Op::M(MOp::Alloc(0, Kind::Set, 0, 0)), Op::M(MOp::Fetch(1, 0, h1)),
+                    Op::M(MOp::Alloc(2, k, 1, 0)), Op::M(MOp::Fetch(3, 0, h1)), Op::End,
+                    Op::Collect(0, How::FinishCycle, None), Op::Collect(b, How::FinishMarking, None),
+                    Op::Begin(b, CbKind::Mutate), Op::M(MOp::LoadRoot(0, 0)), Op::M(MOp::Fetch(1, 0, h1)), Op::End,
+                    Op::DropH(h1),
+                    Op::Collect(b, How::FinishCycle, None), Op::Collect(b, How::FinishCycle, None), Op::Collect(0, How::FinishCycle, None),
+                ];
+                self.paced[b as usize] = false;
+                self.flat.extend(seq.iter().copied());
+                return self.flat.pop_front();
+            }
+        }
         // scenario: slot reuse. A slot freed by dropping its last handle is taken by a new stash; the new
         // handle is cloned, one of the two is dropped, the arena is collected twice: the survivor must still
         // resolve to the second object (and a third stash must not disturb it)
@@ -466,6 +489,25 @@ impl OpSource for Gen {
                     self.cb_left += 4;
                     return Some(Op::M(MOp::LoadRoot(r0, slot)));
                 }
+                // fully marked arena: a black holder adopts a fresh (white) object under each of the documented
+                // licences: child-only forward barrier, parent-only backward barrier, pair barriers
+                if marked && !matches!(kind, CbKind::Finalize(_)) && self.rng.chance(1, 4) {
+                    let r = &mut self.rng;
+                    let (r0, rx) = (r.below(2) as u8, 2 + r.below(3) as u8);
+                    let slot = r.below(NROOT as u64) as u8;
+                    let s = r.below(2) as u8;
+                    self.tpl.push_back(Op::M(MOp::Alloc(rx, r.pick(&[Kind::Node, Kind::Leaf, Kind::Struct]), 1, 1)));
+                    match r.below(4) {
+                        0 => self.tpl.push_back(Op::M(MOp::BarF(None, rx))),
+                        1 => self.tpl.push_back(Op::M(MOp::BarB(r0, None))),
+                        2 => self.tpl.push_back(Op::M(MOp::BarF(Some(r0), rx))),
+                        _ => self.tpl.push_back(Op::M(MOp::BarB(r0, Some(rx)))),
+                    }
+                    self.tpl.push_back(Op::M(MOp::RawStore(r0, s, rx)));
+                    self.tpl.push_back(Op::M(MOp::Clear(rx)));
+                    self.cb_left += 5;
+                    return Some(Op::M(MOp::LoadRoot(r0, slot)));
+                }
                 // templates that build the rarely reached shapes: objects that are only weakly
                 // referenced from reachable holders (they become WhiteWeak during the next marking)
                 if v.cb_phase == 0 && !matches!(kind, CbKind::Finalize(_)) && self.rng.chance(1, 6) {
@@ -473,6 +515,15 @@ impl OpSource for Gen {
                     let (rp, rx, w) = (r.below(2) as u8, 2 + r.below(2) as u8, r.below(NREGS as u64) as u8);
                     let k = r.pick(&[Kind::Node, Kind::Node, Kind::Struct, Kind::Leaf, Kind::Lock]);
                     self.tpl.push_back(Op::M(MOp::Alloc(rx, k, 2, 1)));
+                    // half of the weakly held objects own a child that nothing else reaches: when such an object
+                    // becomes strongly reachable again (upgrade + store) its child must be traced through it
+                    if k != Kind::Leaf && r.chance(1, 2) {
+                        let ry = 4 + r.below(2) as u8;
+                        self.tpl.push_back(Op::M(MOp::Alloc(ry, r.pick(&[Kind::Node, Kind::Leaf, Kind::Struct]), 1, 0)));
+                        self.tpl.push_back(Op::M(MOp::Store(rx, 0, Some(ry))));
+                        self.tpl.push_back(Op::M(MOp::Clear(ry)));
+                        self.cb_left += 3;
+                    }
                     self.tpl.push_back(Op::M(MOp::Downgrade(w, rx)));
                     if kind == CbKind::MutRoot && r.chance(1, 2) {
                         self.tpl.push_back(Op::M(MOp::RootSetW(r.below(NROOT as u64) as u8, Some(w))));
